@@ -241,7 +241,7 @@ fn write_evidence(eng: &dyn Engine, quick: bool, seed: u64, agg: &Agg, wall: f64
             "distinct_nontrivial": agg.distinct.len(),
             "rule": eng.rule(),
             "samples": samples,
-            "exhaustive": false,
+            "exhaustive": eng.exhaustive(quick),
             "exhaustive_note": eng.exhaustive_note(quick),
             "simulated_runs": agg.runs,
             "simulated_runs_per_hour": if hours > 0.0 { (agg.runs as f64 / hours).round() } else { 0.0 },
